@@ -161,8 +161,8 @@ def run(ctx):
         for f in compare(c, res):
             ctx.fail(f, shrink)
     # large bases: rc2 vs z3 (+ one more engine)
-    files = rel.shipped_pairs(ctx.rng, 8 if quick else 60, max_atoms=20 if quick else 40)
-    m, cap = (5, 5) if quick else (10, 8)
+    files = rel.shipped_pairs(ctx.rng, 8 if quick else 32, max_atoms=20 if quick else 40)
+    m, cap = (5, 5) if quick else (8, 6)
     jobs = []
     for kb, q in files:
         weakly = ctx.rng.random() < 0.3
